@@ -20,6 +20,11 @@ def FiredOnce : List Event → Prop
 theorem mem_ids {l : List Ev} {i : Nat} : i ∈ ids l ↔ ∃ e ∈ l, e.id = i := by
   simp [ids]
 
+/-- what the end of an operation needs: a destructor's id is no longer pending -/
+def FinOK (σ : St) : Fin → Prop
+  | .ctor id => id ∈ σ.used
+  | .dtor id => id ∈ σ.used ∧ id ∉ ids σ.pending
+
 def PcOKAt (σ : St) (pc : PC) : Prop :=
   match pc with
   | .idle => True
@@ -36,6 +41,10 @@ def PcOKAt (σ : St) (pc : PC) : Prop :=
   | .s1 id => id ∈ σ.used
   | .s2 id => id ∈ σ.used
   | .dEnd id => id ∈ σ.used ∧ id ∉ ids σ.pending
+  | .l2 fin => FinOK σ fin
+  | .l3 fin _ => FinOK σ fin
+  | .l4 fin => FinOK σ fin
+  | .l5 fin => FinOK σ fin
 
 def PcOK (σ : St) : Prop := PcOKAt σ σ.pc
 
